@@ -6,6 +6,7 @@ Exit 0: every corruption rejected with the expected clause; exit 2 otherwise
 (a selftest failure is a machinery failure, never a verdict on the repository).
 """
 import copy
+import os
 import json
 
 from . import tlc
@@ -240,7 +241,25 @@ def st_c18(ctx):
         ("old content gone, failure at open", "oracle:OldDestroyedBeforeWrite", f4)]) and ok
     d1 = copy.deepcopy(dry)
     d1["targets"][0]["data"][0] ^= 1
-    return _judge_pairs(ctx, "Trace_FaultStore", dry, [("fault-free store reads back wrong", "oracle:FaultFreeBroken", d1)]) and ok
+    ok = _judge_pairs(ctx, "Trace_FaultStore", dry, [("fault-free store reads back wrong", "oracle:FaultFreeBroken", d1)]) and ok
+    # the strace audit must notice an interposer that misses a class of calls:
+    # with the os.mkdir hook removed, mkdir system calls have no counterpart
+    from . import faults, strace_audit as sa
+    if sa.available():
+        good = sa.audit(work, "v2p.file.gz")
+        env_flag = "VERIF_SELFTEST_NO_MKDIR_HOOK"
+        os.environ[env_flag] = "1"
+        try:
+            blind = sa.audit(work, "v2p.file.gz")
+        finally:
+            del os.environ[env_flag]
+        a_ok = not good["uncovered"] and not good["count_mismatch"] and any(u.startswith("mkdir ") for u in blind["uncovered"])
+        print("  %-44s %s" % ("strace audit: complete interposer accepted, mkdir-blind one reported",
+                              "ok" if a_ok else "NOT OK %s / %s" % (good["uncovered"][:3], blind["uncovered"][:3])))
+        ok = ok and a_ok
+    else:
+        print("  strace not usable here: audit selftest skipped")
+    return ok
 
 
 TESTS = {"C03": st_c03, "C04": lambda c: st_shard(c, "C04"), "C05": lambda c: st_shard(c, "C05"),
